@@ -67,6 +67,11 @@ Attr(env, cmdDoc) ==
             <<"appName", Str("envstr", "env")>>,
             <<"locks", Obj(<< <<"Global", Obj(<< <<"acquireCount", Obj(<< <<"r", Num("env")>> >>)>> >>)>> >>)>>,
             <<"flowControl", Arr(<< Arr(<< Obj(<< <<"filter", Obj(<< <<"uf1", Str("envstr", "env")>> >>)>> >>) >>) >>)>>,
+            \* attributes that merely share their name with a namespace-bearing command field or a zone slot: not part of any command document
+            <<"collection", Str("envstr", "env")>>,
+            <<"count", Str("envstr", "env")>>,
+            <<"$db", Str("envstr", "env")>>,
+            <<"filter", Obj(<< <<"uf1", Str("envstr", "env")>> >>)>>,
             <<"durationMillis", Num("env")>> >>)
 
 \* attrKind: "obj" (the usual), or a line whose attr is missing / not a document
